@@ -207,7 +207,20 @@ func exec(line string, st *hx.Stats) string {
 			for _, s := range steps {
 				c := cached.Check(s.rq, s.ctxT)
 				u := plain.Check(s.rq, s.ctxT)
-				parts = append(parts, cls(c)+"/"+cls(u))
+				cc, uc := cls(c), cls(u)
+				if cc != uc && (cc == "T" || cc == "F") && (uc == "T" || uc == "F") {
+					// before blaming the cache: is the cache-less engine itself stable on this request? (an engine
+					// whose answer depends on arrival order — findings F2, V2-E — is C02/C03's business, not the
+					// cache's); "N" is not a decision, the driver does not compare it
+					for i := 0; i < 8 && uc != "N"; i++ {
+						fresh := mk(false)
+						if cls(fresh.Check(s.rq, s.ctxT)) != uc {
+							uc, cc = "N", "N"
+						}
+						fresh.Close()
+					}
+				}
+				parts = append(parts, cc+"/"+uc)
 			}
 		}
 		out = append(out, name+"="+strings.Join(parts, ","))
